@@ -22,5 +22,6 @@ run dstutil_test.go.part dstutil accessor '*'
 run decorator_test.go.part decorator restore '*'
 run decorator_test.go.part decorator helpers applyDecorations
 run dstutil_test.go.part dstutil cursor apply
+run decorator_test.go.part decorator graph objects
 for op in Append Prepend Replace Clear All; do run dst_test.go.part . declist $op; done
 exit $rc
